@@ -20,8 +20,8 @@ Infix "+++" := String.append (right associativity, at level 60).
 
 (* ---------- the version table ---------- *)
 (* rows are (version, id); SQLite stores version as a 64-bit rowid alias, hence Z.  A NULL id reads as ""
-   (lib.rs:306 unwrap_or_default) and is represented as "".  [vt_has_id = false] is the legacy layout the
-   ALTER at lib.rs:268-276 upgrades.  Rows are kept in ascending version order (= rowid scan order). *)
+   (lib.rs:318 unwrap_or_default) and is represented as "".  [vt_has_id = false] is the legacy layout the
+   ALTER at lib.rs:270-278 upgrades.  Rows are kept in ascending version order (= rowid scan order). *)
 Record vtable := mkVt { vt_has_id : bool; vt_rows : list (Z * string) }.
 
 (* committed user statements, in execution order, since the (arbitrary) initial database *)
